@@ -18,9 +18,11 @@ static OBSERVED_LATE: AtomicU64 = AtomicU64::new(0);
 #[derive(Clone, Copy, Debug)]
 enum Worker { Drop1, CloneThenDropBoth, Drop2 }
 
-fn scenario(workers: &'static [Worker], concurrent_gcs: usize, with_child: bool)
+fn scenario(workers: &'static [Worker], concurrent_gcs: usize, with_child: bool, bound: Option<usize>)
 {
-    loom::model(move || {
+    let mut builder = loom::model::Builder::new();
+    builder.preemption_bound = bound;
+    builder.check(move || {
         SCHEDULES.fetch_add(1, std::sync::atomic::Ordering::Relaxed);
         let mut app = App::new();
         app.setup_auto_despawn();
@@ -114,22 +116,23 @@ fn main()
     static S3: [Worker; 2] = [Worker::Drop2, Worker::Drop1];
     static S4: [Worker; 2] = [Worker::CloneThenDropBoth, Worker::CloneThenDropBoth];
     static S5: [Worker; 3] = [Worker::Drop1, Worker::Drop1, Worker::Drop1];
-    let mut scenarios: Vec<(&'static [Worker], usize, bool, &str)> = vec![
-        (&S1, 1, false, "2 workers drop 1 clone each, 1 concurrent gc"),
-        (&S2, 1, true, "drop / clone-then-drop-both, 1 concurrent gc, entity has a child"),
-        (&S3, 2, false, "drop 2 / drop 1, 2 concurrent gcs"),
+    // (workers, concurrent gcs, child, preemption bound (None = unbounded, complete DPOR), name)
+    let mut scenarios: Vec<(&'static [Worker], usize, bool, Option<usize>, &str)> = vec![
+        (&S1, 1, false, None, "2 workers drop 1 clone each, 1 concurrent gc"),
+        (&S2, 1, true, None, "drop / clone-then-drop-both, 1 concurrent gc, entity has a child"),
+        (&S3, 2, false, None, "drop 2 / drop 1, 2 concurrent gcs"),
     ];
     if thorough
     {
-        scenarios.push((&S4, 2, true, "clone-then-drop-both x2, 2 concurrent gcs, child"));
-        scenarios.push((&S5, 1, false, "3 workers drop 1 clone each, 1 concurrent gc"));
+        scenarios.push((&S4, 2, true, Some(6), "clone-then-drop-both x2, 2 concurrent gcs, child"));
+        scenarios.push((&S5, 1, false, Some(6), "3 workers drop 1 clone each, 1 concurrent gc"));
     }
-    for (w, g, c, name) in scenarios
+    for (w, g, c, bound, name) in scenarios
     {
         let before = SCHEDULES.load(std::sync::atomic::Ordering::Relaxed);
-        scenario(w, g, c);
+        scenario(w, g, c, bound);
         let n = SCHEDULES.load(std::sync::atomic::Ordering::Relaxed) - before;
-        println!("SCENARIO {name}: schedules={n}");
+        println!("SCENARIO {name}: schedules={n} preemption_bound={}", bound.map(|b| b.to_string()).unwrap_or("none".into()));
     }
     println!("TOTAL schedules={} gone_during_concurrent_gc={} still_alive_during_concurrent_gc={}",
         SCHEDULES.load(std::sync::atomic::Ordering::Relaxed),
